@@ -1,10 +1,12 @@
 """Boring reference models (documentation-derived) shared by the call-history checks."""
 
 STRICT, NASM, SMART = 0, 1, 2
-VALS = (STRICT, NASM, SMART, 3, -1, 99)     # the three documented values and out-of-range ones (adjacent, negative, far)
+# the three documented values and undocumented ones: adjacent, negative, far, and values that alias a documented one when
+# truncated to 8 or 16 bits (seeded/C12_6: a helper taking the option as uint8_t) or negated
+VALS = (STRICT, NASM, SMART, 3, -1, 99, 256, 257, 258, 65537, -255)
 SETTERS = ("m", "w", "b", "s", "a")   # asm_mov_imm, asm_sib_index_base_swap, asm_sib_no_base, asm_sib, asm_set_all
 INIT = (SMART, NASM, NASM)            # a new instance: SMART / NASM / NASM
-NAMES = {0: "STRICT", 1: "NASM", 2: "SMART", 3: "3", -1: "-1", 99: "99"}
+NAMES = {0: "STRICT", 1: "NASM", 2: "SMART", 3: "3", -1: "-1", 99: "99", 256: "256", 257: "257", 258: "258", 65537: "65537", -255: "-255"}
 
 
 def opt_step(state, setter, v):
